@@ -95,8 +95,8 @@ def part : Nat → Nat → Nat → Nat → List (List Nat)
   | 0, x, _, _ => if x = 0 then [[]] else []
   | n+1, x, lo, hi =>
     if (n+1) * lo ≤ x ∧ x ≤ (n+1) * hi then
-      (List.range (hi + 1 - lo)).flatMap fun t =>
-        if lo + t ≤ x then (part n (x - (lo + t)) (lo + t) hi).map ((lo + t) :: ·) else []
+      (List.range' lo (hi + 1 - lo)).flatMap fun v =>
+        if v ≤ x then (part n (x - v) v hi).map (v :: ·) else []
     else []
 
 def listProd (l : List Rat) : Rat := l.foldl (· * ·) 1
